@@ -1,5 +1,4 @@
-From IL Require Export Gen.AuthTable Checks.Common.
-From IL Require Props.C28.
+From IL Require Export Gen.AuthTable Model.AuthClass Checks.Common.
 Open Scope N_scope.
 
 Inductive c28case :=
@@ -15,8 +14,8 @@ Definition c28_one (c : c28case) : N * (bool * bool) :=
       (* the property, evaluated on the implementation's own decisions *)
       let prop :=
         implb kv ke && implb ke ko && implb gv ge && implb ge ga &&
-        implb kv (negb (Props.C28.mutates k)) &&
-        implb (Props.C28.admin_only k) (negb ge && negb gv) in
+        implb kv (negb (mutates k)) &&
+        implb (admin_only k) (negb ge && negb gv) in
       (0, (corr, prop))
   | C28Seen ks =>
       (* every statement kind of the regenerated enum was exercised on the real code *)
